@@ -125,3 +125,79 @@ def c_rename_variables(h):
         h.check("C16.rename_variables.returns_last_result", out.value is cur, "returned %r" % (out.value,))
     h.check("C13.mapping_list_unchanged", len(pl.items) == n, "mapping list modified")
     h.frame_ok(out, "C13.frame")
+
+
+# ------------------------------------------------------------------------------------------------
+# optimisation wrappers (C12): objective parsed from "<expr> <= 0", optimised over assumptions AND guarantees
+# ------------------------------------------------------------------------------------------------
+@contract("PolyhedralIoContract.optimize[delegation]", ["C12", "C13", "C14"], [PIC + ":PolyhedralIoContract.optimize"], "U", assumes=["contract of the parser (C09) and of PolyhedralTermList.optimize (C12, domain S)"])
+def c_optimize_wrapper(h):
+    u, mod, cls = _setup(h)
+    c = u.contract("c", cls)
+    maximize = h.ctx.choose(2, "maximize") == 0
+    rec = {}
+    parsed_vars = Opaque("objective-coefficients")
+    result = Opaque("optimum")
+
+    def parse_stub(I, args, kwargs):
+        rec["parsed"] = args[0]
+        t = Obj(mod.ns["PolyhedralTerm"], h.ctx)
+        t.attrs["variables"] = parsed_vars
+        t.attrs["constant"] = 0.0
+        return PList([t], h.ctx)
+
+    def opt_stub(I, args, kwargs):
+        rec["opt_self"] = args[0]
+        rec["objective"] = kwargs.get("objective", args[1] if len(args) > 1 else None)
+        rec["maximize"] = kwargs.get("maximize", args[2] if len(args) > 2 else None)
+        return result
+
+    h.I.stubs["pacti.terms.polyhedra.serializer:polyhedral_termlist_from_string"] = parse_stub
+    u.AbsTL.ns["optimize"] = NativeFn_opt(opt_stub)
+    out = h.call(h.method(c, "optimize"), ["EXPR", maximize])
+    h.check("C14.optimize_wrapper.no_exception", out.kind == "return", "raised %s at %s" % (out.exc_name, out.where))
+    if out.kind != "return":
+        return
+    h.check("C12.optimize_wrapper.objective_is_parsed_as_expr_leq_0", rec.get("parsed") == "EXPR <= 0", "parsed %r" % (rec.get("parsed"),))
+    h.check("C12.optimize_wrapper.objective_coefficients_passed", rec.get("objective") is parsed_vars, "objective %r" % (rec.get("objective"),))
+    h.check("C12.optimize_wrapper.direction_passed", rec.get("maximize") is maximize, "maximize=%r" % (rec.get("maximize"),))
+    h.check("C12.optimize_wrapper.returns_list_optimum", out.value is result, "returned %r" % (out.value,))
+    s_ = rec.get("opt_self")
+    ok = isinstance(s_, Obj) and "terms" in s_.attrs
+    h.check("C12.optimize_wrapper.optimises_a_constraint_list", ok, "%r" % (s_,))
+    if ok:
+        # over all behaviours satisfying assumptions AND guarantees
+        h.ensure("C12.optimize_wrapper.feasible_set_is_assumptions_and_guarantees", u.sat(s_) == z3.And(u.sat(c.attrs["a"]), u.sat(c.attrs["g"])))
+    h.frame_ok(out, "C13.frame")
+
+
+def NativeFn_opt(fn):
+    from pyvc.core import NativeFn
+
+    return NativeFn("optimize", fn)
+
+
+@contract("PolyhedralIoContract.get_variable_bounds", ["C12"], [PIC + ":PolyhedralIoContract.get_variable_bounds"], "U", assumes=["contract of PolyhedralIoContract.optimize"])
+def c_bounds(h):
+    u, mod, cls = _setup(h)
+    c = u.contract("c", cls)
+    calls = []
+
+    def stub(I, args, kwargs):
+        mx = kwargs.get("maximize", args[2] if len(args) > 2 else True)
+        r = Opaque("max" if mx else "min")
+        calls.append((args[1], mx, r))
+        return r
+
+    h.I.stubs[PIC + ":PolyhedralIoContract.optimize"] = stub
+    out = h.call(h.method(c, "get_variable_bounds"), ["v"])
+    h.check("C14.bounds.no_exception", out.kind == "return", "raised %s" % out.exc_name)
+    if out.kind == "return":
+        r = out.value
+        ok = isinstance(r, tuple) and len(r) == 2
+        h.check("C12.bounds.returns_pair", ok, "%r" % (r,))
+        mins = [x for x in calls if x[1] is False and x[0] == "v"]
+        maxs = [x for x in calls if x[1] is True and x[0] == "v"]
+        h.check("C12.bounds.one_minimisation_one_maximisation_of_the_variable", len(mins) == 1 and len(maxs) == 1 and len(calls) == 2, "calls %r" % ([(a, b) for a, b, _ in calls],))
+        if ok and len(mins) == 1 and len(maxs) == 1:
+            h.check("C12.bounds.minimum_first_maximum_second", r[0] is mins[0][2] and r[1] is maxs[0][2], "order of the pair is wrong")
